@@ -57,6 +57,18 @@ def _strategy(draw):
         ops += [add(False) for _ in range(draw(st.integers(1, 3)))]
         ops.append(add(True))
         ops += [add(draw(st.booleans())) for _ in range(draw(st.integers(0, 3)))]
+        if draw(st.integers(0, 2)) == 0:
+            # the first tree is emptied completely (everything placed before the second tree was opened goes,
+            # the surrounding residues included) while the second one still holds residues; queries follow
+            ops.append({"op": "empty_first"})
+            for _q in range(draw(st.integers(1, 3))):
+                ops.append({"op": "force", "mol": draw(st.integers(0, nmol - 1)), "node": draw(st.integers(0, 5)),
+                            "point": draw(_coord(box)), "near": True, "pick": draw(st.integers(0, 100)),
+                            "offset": [draw(st.integers(-400, 400)) / 1000.0 for _ in range(3)],
+                            "exclude_mask": 0})
+            if draw(st.booleans()):
+                ops.append({"op": "add", "pick": draw(st.integers(0, 100)), "point": draw(_coord(box)), "start": False,
+                            "near": False, "offset": [0.0, 0.0, 0.0]})
         for _ in range(draw(st.integers(1, 2))):
             ops.append({"op": "remove", "mol": draw(st.integers(0, nmol - 1)), "mask": draw(st.integers(1, 63)),
                         "whole": draw(st.booleans())})
@@ -150,6 +162,7 @@ def check(spec, ctx):
     across_face = False
     opened_second_tree = False
     emptied = False
+    first_tree = []
     ghosts = []
     asked_at_ghost = False
     synced = False
@@ -224,6 +237,24 @@ def check(spec, ctx):
                 model[key] = point.copy()
                 if len(getattr(engine, "position_trees", [])) > ntrees:
                     opened_second_tree = True
+                if not opened_second_tree:
+                    first_tree.append(key)
+            elif kind == "empty_first":
+                if not opened_second_tree:
+                    continue
+                by_mol = {}
+                for key in first_tree:
+                    if key in model:
+                        by_mol.setdefault(key[0], []).append(key[1])
+                for mol, nodes in by_mol.items():
+                    engine.remove_positions(mol, nodes)
+                    for n in nodes:
+                        ghosts.append(model.pop((mol, n)))
+                engine.remove_positions(99, list(range(ndummy)))
+                for k in range(ndummy):
+                    model.pop((99, k), None)
+                had_removal = True
+                ctx.label("first_of_two_trees_emptied")
             elif kind == "remove":
                 mol = op["mol"]
                 nodes = [n for n in range(sizes[mol]) if op["whole"] or (op["mask"] >> n) & 1]
